@@ -211,6 +211,7 @@ class PeerConn:
 
     def close(self):
         self.w.send_fin(self.end)
+        self.end.rx.closed_reader = True      # the peer's socket is gone: what still arrives for it is answered with a reset
 
     # -------------------------------------------------- sending with the fault layer
     def _send(self, tag, data):
